@@ -152,6 +152,9 @@ func (zns *ZnPMServer) StartMaster(connUrl string, cfg ZnPMServerConfig) error {
 	//// read named pipe data to recv msg from child process
 	go zns.readNamedPipe(p)
 
+	// the initial processes are reserved from the start, like every later batch
+	zns.refCount = cfg.InitProcs
+
 	//// maintain child state (DO NOT UPDATE child data directly!)
 	go zns.maintainChildState(cfg, ln, p)
 
@@ -261,7 +264,11 @@ func (zns *ZnPMServer) maintainChildState(cfg ZnPMServerConfig, ln *net.TCPListe
 		select {
 		case aw := <-zns.addChan:
 			zns.childs[aw.pid] = aw
-			zns.refCount = len(zns.childs)
+			// a registered child was already counted when it was reserved; never lower the
+			// reservation here - other processes of the same batch may still be starting
+			if len(zns.childs) > zns.refCount {
+				zns.refCount = len(zns.childs)
+			}
 		case uw := <-zns.updateChan:
 			if oldState, ok := zns.childs[uw.pid]; ok {
 				zns.childs[uw.pid] = workerState{
